@@ -318,10 +318,11 @@ func RunParent(reg Registry, o RunOpts) int {
 		raceStats["race_report_blocks"] = 0
 		for sig, n := range reports {
 			raceStats["race_report_blocks"] += n
-			v := &Violation{Property: o.Property, Rule: o.Property + ".data-race", Engine: "race-detector", Seed: o.Seed, Tier: o.Tier,
+			// a data race is a C17 matter whichever check's workload exposed it
+			v := &Violation{Property: "C17", Rule: "C17.data-race", Engine: "race-detector", Seed: o.Seed, Tier: o.Tier,
 				Attrs: map[string]string{"pair": sig}, Detail: map[string]any{"occurrences": n}}
 			total.Violations = append(total.Violations, v)
-			total.NViol[o.Property+"/"+v.Rule] += n
+			total.NViol["C17/"+v.Rule] += n
 		}
 		raceStats["distinct_race_pairs"] = len(reports)
 		if harnessOnly > 0 {
